@@ -164,12 +164,16 @@ func doParse(src interface{}) (out parseOut) { return doParseFS(src, nil) }
 // doParseFS parses with an optional FileSet (which shifts every file.Idx by
 // the set's current base).
 func doParseFS(src interface{}, fs *file.FileSet) (out parseOut) {
+	return doParseMode(src, fs, 0)
+}
+
+func doParseMode(src interface{}, fs *file.FileSet, mode parser.Mode) (out parseOut) {
 	defer func() {
 		if x := recover(); x != nil {
 			out.panicked = fmt.Sprintf("%T: %v", x, x)
 		}
 	}()
-	p, err := parser.ParseFile(fs, "", src, 0)
+	p, err := parser.ParseFile(fs, "", src, mode)
 	out.prog = p
 	if err != nil {
 		out.errStr = err.Error()
@@ -463,6 +467,29 @@ func (e rfEngine) Exec(ci interface{}, st *Stats) (*Violation, interface{}, bool
 		}
 		if n > 0 && n < len(T) {
 			st.NonTrivial++
+		}
+		// the same prefix with comments recorded: same verdict, same errors, a
+		// well-formed tree, and every recorded comment lies inside the input
+		withC := doParseMode(string(prefix), nil, parser.StoreComments)
+		if withC.panicked != "" {
+			return fail("parse_panic", "parse-panic", rc, "parser panicked on the %d-byte prefix in StoreComments mode: %s", n, withC.panicked)
+		}
+		if withC.errStr != ref.errStr {
+			return fail("comment_mode_changes_verdict", "", rc, "prefix of %d bytes: errors %q normally, %q in StoreComments mode", n, clip(ref.errStr), clip(withC.errStr))
+		}
+		if withC.errStr == "" && withC.prog != nil {
+			if cl, key, d := checkTree(withC.prog, n); cl != "" {
+				rc.Kind = "tree"
+				return fail(cl, key, rc, "accepted %d-byte prefix parsed in StoreComments mode: %s", n, d)
+			}
+			for _, cs := range withC.prog.Comments {
+				for _, cm := range cs {
+					if cm == nil || int(cm.Begin) < 1 || int(cm.Begin) > n+1 {
+						return fail("comment_outside_input", "", rc, "a recorded comment begins at index %v in an input of %d bytes", cm, n)
+					}
+				}
+			}
+			st.Probe("comment_mode_trees_checked")
 		}
 		// the same prefix as the second file of a FileSet: positions are
 		// file-relative and must not change
